@@ -21,7 +21,7 @@ OTHERS = ["spread", "tmin", "pop", "quality", "extra1", "elevation"]
 
 
 def plan(tier, seed):
-    n = 40 if tier == "quick" else 1300
+    n = 100 if tier == "quick" else 1500
     return [{"seed": seed, "k": k, "n": n} for k in range(16)]
 
 
